@@ -341,6 +341,9 @@ func RunW2(opt *W2Opt, plan, sched *simrt.Source, trace bool) *RunOut {
 		c := g.GenCall(&pp, rules, nextCall)
 		c.Client = client
 		nextCall++
+		if c.Method == MPoolEM && !sc.OnlyHReq {
+			c.Method = MPoolEMMulti
+		}
 		c.HasOpt = g.Pct(opt.OptPct)
 		if HasTag(c.Method) && g.Pct(opt.NilTagPct) {
 			w.NilTag[c.Idx] = true
